@@ -131,6 +131,8 @@ func TestBounded_C01(t *testing.T) {
 	bStat("C01.exhaustive_states", total)
 	bRandomHistories(t, "C01")
 	bKeyTypes(t)
+	// value types other than scalars, read back from stored nodes
+	bTypedRoundTrip(t)
 }
 
 // bKeyTypes: every built-in key type, including the extremes of its range, under the default
@@ -724,6 +726,72 @@ func TestBounded_C09(t *testing.T) {
 		}
 	}
 	bStat("C09.failed_delete_cases", cases)
+	// the same for an Insert of a new key that failed on a store fault before it took effect (a
+	// failure after the entry is in — the open C12 finding about growing — is left to C12)
+	icases := 0
+	for seed := 1; seed <= seeds; seed++ {
+		r := &bRand{uint64(seed)*0x9FB21C651E98DF25 + 17}
+		bf := uint(2 + r.intn(3))
+		nf := bFormats[r.intn(2)]
+		st := newBStore("mem://shape-after-failed-insert")
+		model := map[int]int{}
+		for i, n := 0, 8+r.intn(24); i < n; i++ {
+			model[r.intn(40)] = r.intn(3)
+		}
+		base, err := bBuild(bf, nf, st, model, 0, false)
+		if err != nil {
+			continue
+		}
+		root, err := base.MakeRoot(bctx)
+		if err != nil {
+			continue
+		}
+		ks := bModelKeys(model)
+		for k := -1; k <= 40; k++ {
+			if _, in := model[k]; in {
+				continue
+			}
+			for n := 1; n <= 8; n++ {
+				m, err := root.LoadMast(bctx, bCfg(st, nil))
+				if err != nil {
+					break
+				}
+				// make part of the tree private first (an update and, sometimes, another new key)
+				if n%2 == 0 {
+					u := ks[(k+n+len(ks))%len(ks)]
+					if err := m.Insert(bctx, u, model[u]+10); err != nil {
+						break
+					}
+				}
+				if n%3 == 0 {
+					if err := m.Insert(bctx, 50+k, 1); err != nil {
+						break
+					}
+				}
+				sizeBefore := m.Size()
+				st.reset()
+				st.failLoad = 1 + (n-1)/2
+				var ierr error
+				p := bSafely(func() string { ierr = m.Insert(bctx, k, 1); return "" })
+				st.reset()
+				if p != "" || ierr == nil {
+					continue
+				}
+				if m.Size() != sizeBefore {
+					continue
+				}
+				icases++
+				r2, err := m.MakeRoot(bctx)
+				if err != nil {
+					continue
+				}
+				if msg := bWalkShape(r2, st, nil); msg != "" {
+					bViolation(t, "C09", "shape-after-failed-insert", "seed=%d bf=%d nf=%s contents %s\nInsert(%d,1) failed (%d-th store Load failing: %v); the version persisted afterwards (%s) is malformed: %s", seed, bf, nf, bModelString(model), k, 1+(n-1)/2, ierr, bRootString(r2), msg)
+				}
+			}
+		}
+	}
+	bStat("C09.failed_insert_cases", icases)
 }
 
 func TestBounded_C05(t *testing.T) {
@@ -793,6 +861,9 @@ func bTypedRoundTrip(t *testing.T) {
 		{"int/map-values", func(st Persist) *RemoteConfig {
 			return &RemoteConfig{KeysLike: int(0), ValuesLike: map[string]int{}, StoreImmutablePartsWith: st}
 		}, func(i int) interface{} { return i * 5 }, func(i int) interface{} { return map[string]int{fmt.Sprintf("f%d", i%7): i} }},
+		{"int/slice-values", func(st Persist) *RemoteConfig {
+			return &RemoteConfig{KeysLike: int(0), ValuesLike: []int{}, StoreImmutablePartsWith: st}
+		}, func(i int) interface{} { return i*3 - 20 }, func(i int) interface{} { return []int{i, i * 10, i * 100}[:1+i%3] }},
 		{"string/struct-values", func(st Persist) *RemoteConfig {
 			return &RemoteConfig{KeysLike: "", ValuesLike: bOptStruct{}, StoreImmutablePartsWith: st}
 		}, func(i int) interface{} { return fmt.Sprintf("s%02d", i) }, func(i int) interface{} {
